@@ -55,6 +55,7 @@ def run(ctx: Ctx):
     fallbacks(ctx)
     exceptions(ctx)
     collator(ctx)
+    accidental_fallback(ctx)
 
 
 def _dict_in(fn: ast.FunctionDef, name: Optional[str] = None) -> Optional[ast.Dict]:
@@ -395,3 +396,52 @@ def collator(ctx: Ctx):
     m = ctx.repo.lookup(sv, "_is_nan")
     body = SUMMARIZER.summarize(m.node)
     ctx.check_expr("nan-bucket", f"{COL}::SortByValueCollator._is_nan", body, "__try__(np.isnan(value), (TypeError, False))", "labels (strings) are never NaN")
+
+
+# --------------------------------------------------------------------------- the fallback swallows ValueError
+_VE_CONTROL = """
+def _body_idxs(self):
+    keys.sort(reverse=self._descending)
+    _, idxs = zip(*(keys + nans))
+    return idxs
+
+def worst(self):
+    return max(v for v, _ in pairs)
+
+def fine(self):
+    a, b = self._pair
+    return max(xs, default=None), tuple(zip(*pairs))
+"""
+
+
+def _accidental_valueerrors(fn: ast.AST):
+    out = []
+    for n in ast.walk(fn):
+        if isinstance(n, ast.Assign) and isinstance(n.targets[0], (ast.Tuple, ast.List)) and isinstance(n.value, ast.Call) and u(n.value.func) == "zip" and any(isinstance(a, ast.Starred) for a in n.value.args):
+            out.append((n.lineno, u(n)[:70], "unpacking zip(*pairs) raises ValueError when there are no pairs"))
+        if isinstance(n, ast.Call) and isinstance(n.func, ast.Name) and n.func.id in ("max", "min") and len(n.args) == 1 and not any(k.arg == "default" for k in n.keywords):
+            out.append((n.lineno, u(n)[:70], f"{n.func.id}() of an empty sequence raises ValueError"))
+    return out
+
+
+def accidental_fallback(ctx: Ctx):
+    """The three sort helpers fall back to payload order on ValueError (a measure or element the sort refers to does
+    not exist).  Inside the sorting code itself a construct that raises ValueError on EMPTY input (every element
+    pinned by the fixed lists, no subtotals, ...) is therefore not an error the caller sees but a silent loss of the
+    whole sort.  Scanned: every method of SortByValueCollator."""
+    tree = ast.parse(_VE_CONTROL)
+    if sum(len(_accidental_valueerrors(f)) for f in tree.body) != 2:
+        raise AnalysisError("accidental-ValueError lint: the positive control is no longer recognised")
+    sv = ctx.repo.cls(COL, "SortByValueCollator")
+    n, hits = 0, []
+    for ci in sv.mro:
+        if ci.module is not sv.module:
+            continue
+        for m in ci.members.values():
+            n += 1
+            hits += [(f"{COL}::{ci.name}.{m.name} [{t}]", why) for _l, t, why in _accidental_valueerrors(m.node)]
+    ctx.count("collator methods scanned for accidental ValueError", n)
+    for where, why in hits:
+        ctx.violated("fallback.accidental-valueerror", where, why, "the sort computation raises ValueError only for a reference that matches nothing", "the assemblers catch ValueError and silently return payload order: fixed elements and subtotal groups are then not placed as specified")
+    if not hits:
+        ctx.held("fallback.accidental-valueerror", f"{COL}::SortByValueCollator (and bases)", f"{n} methods: no construct that raises ValueError on empty input", "", "positive control: 2 of 2 recognised")
